@@ -204,7 +204,34 @@ func c02RunFinisher(db *gorm.DB, ch *wChain, soft bool, fin string, pk int, rows
 			ids = []int{}
 		}
 		return ids, err
-	case "update", "delete", "updatepk", "deletepk":
+	case "firstpk", "takepk", "findpk":
+		// the key of the value handed to a read finisher
+		run := func(dst interface{}) *gorm.DB {
+			switch fin {
+			case "firstpk":
+				return ch.apply(base).First(dst)
+			case "takepk":
+				return ch.apply(base).Take(dst)
+			}
+			return ch.apply(base).Find(dst)
+		}
+		var res *gorm.DB
+		var id uint
+		if soft {
+			o := WSoft{ID: uint(pk)}
+			res = run(&o)
+			id = o.ID
+		} else {
+			o := WPlain{ID: uint(pk)}
+			res = run(&o)
+			id = o.ID
+		}
+		if res.Error == gorm.ErrRecordNotFound || res.Error == nil && res.RowsAffected == 0 {
+			return []int{}, nil
+		}
+		return []int{int(id)}, res.Error
+	case "update", "delete", "updatepk", "deletepk", "deletepk-model", "deletepk-both", "deletepk-same", "deletepk-unscoped", "deletepk-model-unscoped",
+		"updatespk-value", "updatecolumnpk", "deleteslice", "updateslice":
 		tx := base.Begin()
 		defer tx.Rollback()
 		var model interface{} = modelOf(soft)
@@ -215,11 +242,55 @@ func c02RunFinisher(db *gorm.DB, ch *wChain, soft bool, fin string, pk int, rows
 				model = &WPlain{ID: uint(pk)}
 			}
 		}
+		keyed := func(k int) interface{} {
+			if soft {
+				return &WSoft{ID: uint(k)}
+			}
+			return &WPlain{ID: uint(k)}
+		}
 		var err error
-		if strings.HasPrefix(fin, "update") {
-			err = ch.apply(tx.Model(model)).Update("b", 77).Error
-		} else {
-			err = ch.apply(tx).Delete(model).Error
+		switch fin {
+		case "deletepk-model":
+			// the key is given through Model(..), the deleted value is empty
+			err = ch.apply(tx.Model(model)).Delete(modelOf(soft)).Error
+		case "deletepk-both":
+			// the same key through Model(..) and through the deleted value (two distinct values)
+			err = ch.apply(tx.Model(model)).Delete(keyed(pk)).Error
+		case "deletepk-same":
+			err = ch.apply(tx.Model(model)).Delete(model).Error
+		case "deletepk-unscoped":
+			err = ch.apply(tx.Unscoped()).Delete(model).Error
+		case "deletepk-model-unscoped":
+			err = ch.apply(tx.Unscoped().Model(model)).Delete(modelOf(soft)).Error
+		case "updatespk-value":
+			// no Model(..): the updating value itself carries the key
+			v := 77
+			if soft {
+				err = ch.apply(tx).Updates(&WSoft{ID: uint(pk), B: &v}).Error
+			} else {
+				err = ch.apply(tx).Updates(&WPlain{ID: uint(pk), B: &v}).Error
+			}
+		case "updatecolumnpk":
+			err = ch.apply(tx.Model(model)).UpdateColumn("b", 77).Error
+		case "deleteslice", "updateslice":
+			// a slice value: its keys form ONE IN unit
+			var sl interface{}
+			if soft {
+				sl = &[]WSoft{{ID: uint(pk)}, {ID: uint(pk%len(rows) + 1)}}
+			} else {
+				sl = &[]WPlain{{ID: uint(pk)}, {ID: uint(pk%len(rows) + 1)}}
+			}
+			if fin == "deleteslice" {
+				err = ch.apply(tx).Delete(sl).Error
+			} else {
+				err = ch.apply(tx.Model(sl)).Update("b", 77).Error
+			}
+		default:
+			if strings.HasPrefix(fin, "update") {
+				err = ch.apply(tx.Model(model)).Update("b", 77).Error
+			} else {
+				err = ch.apply(tx).Delete(model).Error
+			}
 		}
 		if err != nil {
 			return nil, err
@@ -379,37 +450,59 @@ func init() {
 
 // c02Chains: `softOnly` is used by C08 (soft-delete model, leading Or allowed)
 func c02Chains(r *Result, rng *rand.Rand, n int, softOnly bool) {
-	for i := 0; i < n && !expired(); i++ {
+	type job struct {
+		seed int64
+		soft bool
+	}
+	var jobs []job
+	for i := 0; i < n; i++ {
 		seed := rng.Int63()
-		soft := softOnly || rng.Intn(4) == 0
-		c02One(r, seed, soft)
+		jobs = append(jobs, job{seed, softOnly || rng.Intn(4) == 0})
+	}
+	// the Lean model is asked for a whole batch of chains in ONE driver run (a process start per chain dominated the run time)
+	for lo := 0; lo < len(jobs) && !expired(); lo += 250 {
+		hi := lo + 250
+		if hi > len(jobs) {
+			hi = len(jobs)
+		}
+		var ask [][]interface{}
+		for _, j := range jobs[lo:hi] {
+			g := c02Gen(j.seed, j.soft, r.Property)
+			ask = append(ask, g.ask)
+		}
+		if res, err := AskLean(ask); err == nil {
+			for i, j := range jobs[lo:hi] {
+				c02Cache[fmt.Sprint(r.Property, j.seed, j.soft)] = res[i]
+			}
+		}
+		for _, j := range jobs[lo:hi] {
+			if expired() {
+				break
+			}
+			c02One(r, j.seed, j.soft)
+			delete(c02Cache, fmt.Sprint(r.Property, j.seed, j.soft))
+		}
 	}
 }
 
-// c02One generates and judges one chain from its own PRNG (so a stored seed replays it exactly)
-func c02One(r *Result, seedMark int64, soft bool) {
-	prop := r.Property
+var c02Cache = map[string]json.RawMessage{}
+
+type c02Generated struct {
+	rng    *rand.Rand
+	w      *wWorld
+	rows   []wRow
+	ch     *wChain
+	ask    []interface{}
+}
+
+// c02Gen: everything about one case that is determined by its seed, and the question put to the Lean model
+func c02Gen(seedMark int64, soft bool, prop string) *c02Generated {
 	rng := rand.New(rand.NewSource(seedMark))
 	w := newWorld()
 	rows := genRows(rng, 6+rng.Intn(4), soft)
 	cfg := chainGenCfg{exGenCfg: exGenCfg{allowWeird: rng.Intn(10) == 0, allowMixed: rng.Intn(10) == 0, table: tableOf(soft)},
 		soft: soft, allowEmpty: true, leadingOr: prop == "C08"}
 	ch := genChainN(rng, w, 1, 1+rng.Intn(4), cfg)
-	db, _, sqlDB := openW(rows, soft, nil)
-	defer sqlDB.Close()
-	rowStr := make([]string, len(rows))
-	for i, x := range rows {
-		rowStr[i] = x.String()
-	}
-	suite := "rows"
-	mk := func(fin string, pk int) c02Case {
-		return c02Case{Seed: seedMark, Soft: soft, Rows: rowStr, Chain: ch.desc(), Fin: fin, PK: pk}
-	}
-	_ = mk
-
-	// --- correspondence: WHERE text of the real DryRun statement vs the Lean model; SQLite's selection vs Lean sqlEval
-	dry := ch.apply(db.Session(&gorm.Session{DryRun: true})).Find(reflectSlice(soft))
-	realWhere := whereOf(dry.Statement.SQL.String())
 	var filter interface{}
 	if soft {
 		filter = map[string]interface{}{"col": "`w_softs`.`deleted_at`", "kind": "eq", "val": "nil", "id": w.id(wPred{Col: "deleted", Op: "null"})}
@@ -427,8 +520,37 @@ func c02One(r *Result, seedMark int64, soft bool) {
 		}
 		envs[i] = e
 	}
+	return &c02Generated{rng: rng, w: w, rows: rows, ch: ch, ask: []interface{}{"chain.render", ch.json(), []interface{}{false, filter}, envs}}
+}
+
+// c02One generates and judges one chain from its own PRNG (so a stored seed replays it exactly)
+func c02One(r *Result, seedMark int64, soft bool) {
+	prop := r.Property
+	g := c02Gen(seedMark, soft, prop)
+	rng, w, rows, ch := g.rng, g.w, g.rows, g.ch
+	db, _, sqlDB := openW(rows, soft, nil)
+	defer sqlDB.Close()
+	rowStr := make([]string, len(rows))
+	for i, x := range rows {
+		rowStr[i] = x.String()
+	}
+	suite := "rows"
+	mk := func(fin string, pk int) c02Case {
+		return c02Case{Seed: seedMark, Soft: soft, Rows: rowStr, Chain: ch.desc(), Fin: fin, PK: pk}
+	}
+	_ = mk
+
+	// --- correspondence: WHERE text of the real DryRun statement vs the Lean model; SQLite's selection vs Lean sqlEval
+	dry := ch.apply(db.Session(&gorm.Session{DryRun: true})).Find(reflectSlice(soft))
+	realWhere := whereOf(dry.Statement.SQL.String())
 	var flags c02Flags
-	res, err := AskLean([][]interface{}{{"chain.render", ch.json(), []interface{}{false, filter}, envs}})
+	var res []json.RawMessage
+	var err error
+	if raw, ok := c02Cache[fmt.Sprint(prop, seedMark, soft)]; ok {
+		res = []json.RawMessage{raw}
+	} else {
+		res, err = AskLean([][]interface{}{g.ask})
+	}
 	realIDs, ferr := c02RunFinisher(db, ch, soft, "find", 0, rows)
 	if err != nil {
 		r.Violate(Violation{Kind: "correspondence", Suite: "chain.render", Input: ch.desc(), Note: err.Error()})
@@ -474,13 +596,18 @@ func c02One(r *Result, seedMark int64, soft bool) {
 		fins = append(fins, "inline")
 	}
 	pk := rows[rng.Intn(len(rows))].ID
-	fins = append(fins, "updatepk", "deletepk")
+	// the model value's key: through Model(..), through the finisher's value, through both, for reads and writes
+	fins = append(fins, "updatepk", "deletepk", "deletepk-model", "deletepk-both", "deletepk-same", "updatespk-value", "updatecolumnpk",
+		"firstpk", "takepk", "findpk")
+	if soft && prop != "C08" {
+		fins = append(fins, "deletepk-unscoped", "deletepk-model-unscoped")
+	}
 	for _, fin := range fins {
 		usePK := 0
-		if strings.HasSuffix(fin, "pk") {
+		if strings.Contains(fin, "pk") {
 			usePK = pk
 		}
-		accept, hasCond := wantIDs(w, ch, rows, soft, false, usePK)
+		accept, hasCond := wantIDs(w, ch, rows, soft, strings.HasSuffix(fin, "-unscoped"), usePK)
 		strict := accept[0]
 		if !hasCond && usePK == 0 && (strings.HasPrefix(fin, "update") || strings.HasPrefix(fin, "delete")) {
 			continue // no effective condition: C09's territory
@@ -526,6 +653,18 @@ func c02One(r *Result, seedMark int64, soft bool) {
 		}
 		if accepted(got, accept, fin == "count") {
 			continue
+		}
+		if fin == "firstpk" || fin == "takepk" || fin == "findpk" {
+			// one row comes back: it must be one the reading permits (none when that set is empty)
+			ok := false
+			for _, a := range accept {
+				if len(got) == 0 && len(a) == 0 || len(got) == 1 && len(a) > 0 && sort.SearchInts(a, got[0]) < len(a) && a[sort.SearchInts(a, got[0])] == got[0] {
+					ok = true
+				}
+			}
+			if ok {
+				continue
+			}
 		}
 		id, isListed := c02Classify(flags)
 		if id != "" && isListed {
@@ -655,7 +794,7 @@ func c02Composite(r *Result, seed int64) {
 		}
 		return out
 	}
-	for _, fin := range []string{"update", "updates-map", "updatecolumn", "delete", "first"} {
+	for _, fin := range []string{"update", "updates-map", "updatecolumn", "updates-value", "delete", "delete-model", "delete-both", "delete-same", "first", "take"} {
 		tx := db.Begin()
 		var got []string
 		var err error
@@ -669,12 +808,34 @@ func c02Composite(r *Result, seed int64) {
 		case "updatecolumn":
 			err = ch.apply(tx.Model(model())).UpdateColumn("b", 77).Error
 			got = changed(tx, false)
+		case "updates-value":
+			// no Model(..): the updating value carries the (composite) key
+			v := 77
+			m := model()
+			m.B = &v
+			err = ch.apply(tx).Updates(m).Error
+			got = changed(tx, false)
 		case "delete":
 			err = ch.apply(tx).Delete(model()).Error
 			got = changed(tx, true)
-		case "first":
+		case "delete-model":
+			// the key through Model(..) only
+			err = ch.apply(tx.Model(model())).Delete(&WComp{}).Error
+			got = changed(tx, true)
+		case "delete-both":
+			err = ch.apply(tx.Model(model())).Delete(model()).Error
+			got = changed(tx, true)
+		case "delete-same":
 			m := model()
-			err = ch.apply(tx).First(m).Error
+			err = ch.apply(tx.Model(m)).Delete(m).Error
+			got = changed(tx, true)
+		case "first", "take":
+			m := model()
+			if fin == "first" {
+				err = ch.apply(tx).First(m).Error
+			} else {
+				err = ch.apply(tx).Take(m).Error
+			}
 			if err == gorm.ErrRecordNotFound {
 				err, got = nil, []string{}
 			} else if err == nil {
@@ -688,7 +849,7 @@ func c02Composite(r *Result, seed int64) {
 			r.H("pk-composite.error", trunc(err.Error(), 40))
 			continue
 		}
-		if fin == "first" {
+		if fin == "first" || fin == "take" {
 			// First returns one row: it must be one the key reading permits (or none when that set is empty)
 			ok := false
 			for _, a := range accept {
@@ -700,6 +861,21 @@ func c02Composite(r *Result, seed int64) {
 				continue
 			}
 		} else if okSet(got) {
+			continue
+		}
+		// is the chain one of the listed patterns (decided by the Lean model's predicates on the chain's expression list)?
+		var flags c02Flags
+		if res, e := AskLean([][]interface{}{{"chain.render", ch.json(), []interface{}{false, nil}, []interface{}{}}}); e == nil {
+			var out struct {
+				Sound    bool `json:"sound"`
+				MixedNot bool `json:"mixedNot"`
+			}
+			if json.Unmarshal(res[0], &out) == nil {
+				flags = c02Flags{Sound: out.Sound, MixedNot: out.MixedNot, OK: true}
+			}
+		}
+		if id, isListed := c02Classify(flags); id != "" && isListed {
+			r.KnownFinding(id, "composite key: rows differ from the logical combination of the units")
 			continue
 		}
 		r.Violate(Violation{Kind: "e2e", Suite: "pk-composite", Input: c02Case{Seed: seed, Rows: rowStr, Chain: ch.desc(), Fin: fin + " model key " + key(target)},
